@@ -394,6 +394,7 @@ def option_value_table(prog, chk):
     select_arguments_rearmed(prog, chk, "C20.m")
     overload_forwarding(prog, chk, "C20.n")
     argv_reads_within_count(prog, chk, "C20.o")
+    list_overload_count(prog, chk, "C20.p")
 
 
 def quoted_word_typestate(prog, chk, rid):
@@ -877,3 +878,36 @@ def argv_reads_within_count(prog, chk, rid):
                         argc, q.no_casts(f.r(e))[:40], "undetermined" if v is None else v), evals=n_ev)
         else:
             chk.ok(rid, f, "%d subscripts of argv stay inside the count for argc = 0..3" % len(subs), where, "%d evaluations" % n_ev, evals=n_ev)
+
+
+def list_overload_count(prog, chk, rid):
+    """The List<String> overloads build a pointer vector and delegate to the argc/argv overload, which decides from (argc, argv[argc-1])
+    whether it may use the vector as it is.  The count handed over has to be the number of list elements - a terminator counted in
+    makes the callee take an empty list for a complete, terminated vector (the child then starts without even its argv[0])."""
+    chk.rule(rid, "WRAP/FIN: where a Process::start/open overload taking a List<String> delegates to the argc/argv overload, the count "
+                  "argument evaluates to the number of list elements (for 0, 1 and 3 elements)", floor=1)
+    fs = [f for f in prog.functions.values() if f.clsq == "Process" and f.short in ("start", "open") and f.blocks and f.file.endswith("Process.cpp") and
+          any("List<String>" in (p_.get("t") or "") for p_ in f.params)]
+    if not fs:
+        raise AnalysisBroken("no Process::start/open overload taking a List<String> found")
+    for f in fs:
+        ln = next(p_["n"] for p_ in f.params if "List<String>" in (p_.get("t") or ""))
+        for c in q.calls(f):
+            g = prog.functions.get(f.nodes[c].get("csig"))
+            if g is None or g.short != f.short or g is f or not any(p_["n"] == "argc" for p_ in g.params):
+                continue
+            k = [p_["n"] for p_ in g.params].index("argc")
+            a = q.call_args(f, c)[k]
+            bad = None
+            for n in (0, 1, 3):
+                v = fin.eval_expr(f, a, {"%s.size()" % ln: n})
+                if v != n:
+                    bad = (n, v)
+                    break
+            if bad:
+                chk.bad(rid, f, "list-count-not-element-count", f.where(c),
+                        "for a list of %d element(s) the count handed to %s is `%s`%s: the callee treats a vector whose last counted element "
+                        "is null as complete and passes it to exec as it is - for an empty list the child gets no argv[0] at all" % (
+                            bad[0], g.sig[:50], q.no_casts(f.r(a))[:40], "" if bad[1] is None else " = %s" % bad[1]), evals=3)
+            else:
+                chk.ok(rid, f, "count = number of list elements", f.where(c), q.no_casts(f.r(a))[:40], evals=3)
